@@ -97,7 +97,26 @@ var c01ConnVals = []string{"Connection: keep-alive", "Connection: close", "Conne
 const c01Embedded = "GET /smug HTTP/1.1\r\nHost: h\r\n\r\n"
 
 // Body bytes. Index 0 ("auto") = the well-formed body for the request's own framing headers.
-var c01Bodies = []string{
+var c01Bodies = append(c01BodiesBase, c01ExtBreakBodies()...)
+
+// c01ExtBreakBodies: a three-chunk body ("hel", "lo", last chunk) in which one chunk-size line carries an extension of
+// the form ;x / ;x=y / ;x="q" with a line break {bare LF, bare CR, CRLF} inside the extension name, value or quoted
+// string, on the first, a later, or the last (0) chunk.
+func c01ExtBreakBodies() []string {
+	var out []string
+	for _, brk := range []string{"\n", "\r", "\r\n"} {
+		for _, ext := range []string{";x" + brk + "z", ";x" + brk + "z=y", ";x=y" + brk + "y", ";x" + brk + "z=\"q\"", ";x=\"q" + brk + "q\""} {
+			for pos := 0; pos < 3; pos++ {
+				e := [3]string{}
+				e[pos] = ext
+				out = append(out, "3"+e[0]+"\r\nhel\r\n2"+e[1]+"\r\nlo\r\n0"+e[2]+"\r\n\r\n")
+			}
+		}
+	}
+	return out
+}
+
+var c01BodiesBase = []string{
 	"\x00auto",
 	"", "hello", "hel", "helloXYZ", c01Embedded, "0\r\n\r\n" + c01Embedded, "1f\r\n" + c01Embedded + "\r\n0\r\n\r\n",
 	"5\r\nhello\r\n0\r\n\r\n",
@@ -878,7 +897,7 @@ func TestVerif_C01(t *testing.T) {
 	devPair := vrt.Pick(r, 2, 2)
 	cfgs := c01AllCfgs()
 	r.Rule(fmt.Sprintf("pipelines [A, canary] with <=%d and [A, B, canary] with <=%d non-canonical slot choices in total; slots per request: method(%d) target(%d) version(%d) "+
-		"request-line shape(%d) Host(%d) Content-Length lines(%d) Transfer-Encoding lines x order(%d) line endings(%d) extra header(%d) body bytes(%d) Connection line {absent, keep-alive, close, Keep-Alive} x {before, after the framing headers}(%d); each pipeline x 16 flag "+
+		"request-line shape(%d) Host(%d) Content-Length lines(%d) Transfer-Encoding lines x order(%d) line endings(%d) extra header(%d) body bytes(%d, incl. 45 chunked bodies with a line break inside a chunk extension) Connection line {absent, keep-alive, close, Keep-Alive} x {before, after the framing headers}(%d); each pipeline x 16 flag "+
 		"combinations (ReduceMemoryUsage, DisableHeaderNamesNormalizing, GetOnly, DisablePreParseMultipartForm) x ReadBufferSize {128,4096} delivered whole, plus {1-byte dribble, one split inside "+
 		"the first head's final line terminator; thorough: every split offset for <=1-deviation pipelines} x {ReduceMemoryUsage} x ReadBufferSize {128,4096} (two-request and 3-deviation pipelines: 16 flag "+
 		"combinations whole at 4096, {ReduceMemoryUsage} whole at 128 and dribbled at 4096), through Server.ServeConn on a scripted connection. Oracle: own RFC 9112 framing reference "+
